@@ -77,21 +77,20 @@ Definition model (i : input) : obs :=
       | Raised _ => OEq false false          (* cannot happen for stored sources *)
       end
   | IMime ct =>
-      OMime (match make_content_type (render ct) with Ok c => Ok (canon_ct c) | Raised e => Raised e end)
+      OMime ct (make_content_type (render ct))
   end.
 
 (* ---------------- comparison ----------------
    Chunk lists are compared by what the statement pins down: the joined bytes
    and whether every chunk is non-empty (sizes are checked against chunk_size
-   by spec_okb on the implementation's own observation). *)
+   by spec_okb on the implementation's own observation).  A MIME round trip is
+   compared by the content type that went in and WHETHER it came back (what a
+   mangled content type looks like is not pinned down by the statement). *)
 Definition alpha_b (r : bres) : res (list N * bool) exn :=
   match r with Ok cs => Ok (concat cs, forallb nonempty cs) | Raised e => Raised e end.
 Definition bres_eqb (a b : bres) : bool :=
   res_eqb (pair_eqb bytes_eqb Bool.eqb) exn_eqb (alpha_b a) (alpha_b b).
 
-Definition dict_eqb_exact : dict -> dict -> bool := list_eqb (pair_eqb str_eqb str_eqb).
-Definition ctype_eqb (a b : ctype) : bool :=
-  str_eqb (ct_type a) (ct_type b) && str_eqb (ct_sub a) (ct_sub b) && dict_eqb_exact (ct_params a) (ct_params b).
 Definition perr_eqb (a b : perr) : bool :=
   match a, b with OutOfModel, OutOfModel | ExceptionCantParse, ExceptionCantParse => true | _, _ => false end.
 
@@ -108,7 +107,7 @@ Definition obs_eqb (a b : obs) : bool :=
       option_eqb exn_eqb c1 c2 && Bool.eqb s1 s2 && bres_eqb i1 i2 && bres_eqb j1 j2
       && Bool.eqb a1 a2 && bres_eqb g1 g2
   | OEq e1 n1, OEq e2 n2 => Bool.eqb e1 e2 && Bool.eqb n1 n2
-  | OMime r1, OMime r2 => res_eqb ctype_eqb perr_eqb r1 r2
+  | OMime c1 r1, OMime c2 r2 => ctype_eqb c1 c2 && Bool.eqb (survives c1 r1) (survives c2 r2)
   | _, _ => false
   end.
 
@@ -126,7 +125,7 @@ Inductive aobs :=
 | AReader (created : option exn) (rc : bool) (it1 : ab) (r1 : bool) (it2 : ab) (r2 : bool)
 | ASnap (copied : option exn) (same : bool) (c1 c2 : ab) (ra : bool) (orig : ab)
 | AEq (eq ne : bool)
-| AMime (r : res ctype perr).
+| AMime (echo : ctype) (survived : bool).
 
 Definition alpha (o : obs) : aobs :=
   match o with
@@ -137,5 +136,5 @@ Definition alpha (o : obs) : aobs :=
   | OReader c a i x j y => AReader c a (alpha_b i) x (alpha_b j) y
   | OSnap c s i j a g => ASnap c s (alpha_b i) (alpha_b j) a (alpha_b g)
   | OEq e n => AEq e n
-  | OMime r => AMime r
+  | OMime c r => AMime c (survives c r)
   end.
